@@ -339,7 +339,11 @@ class FullFrontend(ConstrainedFrontend):
             # all constraints are satisfied
             return ()
 
-        unsat_core = self._solver_backend.unsat_core(self._get_solver())
+        # the answer above may have come from a cache; the backend solver itself has to derive the contradiction
+        # before it can report a core
+        solver = self._get_solver()
+        self._solver_backend.satisfiable(extra_constraints=extra_constraints, solver=solver)
+        unsat_core = self._solver_backend.unsat_core(solver)
 
         return tuple(unsat_core)
 
